@@ -107,11 +107,15 @@ class Check:
     def warmup(self, tier="quick"):
         """Fill process-global caches (typing, inflect, lazy imports) so that line counts of
         later runs do not depend on process history.  Results are discarded."""
-        for s in self.WARMUP_SEEDS:
-            try:
-                self.run(seed=s, tier="quick")
-            except Exception:
-                pass
+        self.warming = True  # (thorough tier: checks that can trace opcodes do so in every warm-up run)
+        try:
+            for s in self.WARMUP_SEEDS:
+                try:
+                    self.run(seed=s, tier=tier)  # same tier as the batch
+                except Exception:
+                    pass
+        finally:
+            self.warming = False
 
     # -- run one --------------------------------------------------------------
     def run(self, seed=None, case=None, tier="quick"):
